@@ -21,7 +21,9 @@ import warnings
 
 import fw
 
-LEAN_PROPS = ["NmlVerif.Props.C15"]
+LEAN_PROPS = ["NmlVerif.Props.C15", "NmlVerif.Props.C15Second", "NmlVerif.Props.C15Valid", "NmlVerif.Props.C15Gen"]
+LEAN_EXTRA = ["NmlVerif.Proofs.BuilderLeave", "NmlVerif.Proofs.BuilderValid", "NmlVerif.Proofs.BuilderGen", "NmlVerif.Model.BuilderObj", "NmlVerif.Model.BuilderIR",
+              "NmlVerif.Gen.Builder"]
 LEVEL = "proof"
 RULE = ("random builder histories of 1-40 calls (add_segment / add_unbranched_segments / add_segment_group / "
         "add_unbranched_segment_group / setup_default_segment_groups / setup_nml_cell / reorder / optimise / "
@@ -31,23 +33,37 @@ RULE = ("random builder histories of 1-40 calls (add_segment / add_unbranched_se
         "(missing/unknown seg_type, fraction out of range, missing parent, <2 points, bad group ids and quantity "
         "strings, use_convention=False, foreign parent objects, overwrite).  A history is non-trivial when it ends "
         "with >=3 segments, >=1 user group included in a default group and >=1 call with an explicit id or a "
-        "deferred reorder/optimise flag; distinct = distinct canonical op lists")
+        "deferred reorder/optimise flag; distinct = distinct canonical op lists.  Second pass: segment ids also negative "
+        "and in other lexical forms ('5', 5.5, 5.0), group ids None and '' mixed, malformed points (3-element lists, "
+        "diameter 0), channel densities (add_channel_density / add_channel_density_v with and without a definition "
+        "file), and in half of the malformed histories the caller CATCHES every exception and goes on (the state a "
+        "raising call leaves behind is compared too)")
 TRUST = [
-    "hand-written model of Cell.add_segment & co. (Model/Builder.lean), tied to the code by per-operation correspondence only",
+    "hand-written model of Cell.add_segment & co. (Model/Builder.lean), tied to the code by per-operation correspondence and, for the "
+    "statement sequence of add_segment and the constants of the other builder methods, by the translator translators/py2lean_builder.py "
+    "(Gen/Builder.lean regenerated from helper_methods.py AND nml.py on every run; Props/C15Gen.lean: generated = expected by rfl, "
+    "expected statement list = hand model for all inputs); the statement vocabulary (Model/BuilderIR.lean) and the whole-method "
+    "templates of the small methods are hand-written",
     "natsort on integer segment ids modelled as numeric sort; order inside members/includes is not compared (only resolved sets, group order, names)",
-    "validate(recursive=True) and libxml2 XSD validation are not modelled: the model's shapeOK is compared with their verdicts on every history",
+    "validate(recursive=True) is the binding-level model of C02/C03 (validateAll over the regenerated binding table) run on the model's "
+    "cell (cellObj); its verdict and the hand characterisation shapeOK are compared with the real validate and with libxml2 on every "
+    "finished history; libxml2 itself is not modelled (the XSD verdict = validateAll with the schema's NonNegativeInteger check)",
 ]
 ASSUMPTIONS = [
-    "a call that raises ends the history (the property speaks about sequences of calls that each returned normally); state after a raise is not compared",
+    "the property speaks about sequences of calls that each returned normally; what a raising call leaves behind is modelled (leaveWith) "
+    "and compared in the histories where the caller catches exceptions, but only ids/parents are proved to survive (c15_caught_*)",
     "c15_partial is stated for every optimise_segment_groups meeting OptSpec (segments, group positions/ids, include sets and every resolved set kept: C14's statement); c15_optimise_meets_spec proves it for the model's own function (shipped and C14-repaired loop), the real function is tied to that by correspondence",
     "theorem hypotheses: the parent passed is a segment of the cell, use_convention=True (property's quantifier); "
     "OneTypePerGroup and UserGroupNamesFresh exclude the two open findings",
-    "segment ids are naturals, group ids NmlIds, fractions multiples of 1/4",
+    "segment ids are integers as stored (int(seg_id)); fractions multiples of 1/4; point coordinates are not modelled (parameter geom of cellObj)",
+    "c15_validate_accepts leaves the facet checks of the concrete strings (facetsOK st) and the generated code's max_occurs=9999999 (small) as decidable side conditions",
 ]
 
 DEFAULTS = ["soma_group", "axon_group", "dendrite_group", "all"]
 TYPE_GROUP = {"soma": "soma_group", "axon": "axon_group", "dendrite": "dendrite_group"}
-USER_GROUPS = ["g0", "g1", "g2", "dend_0", "dend_1", "axon_0", "soma_0", "sec10", "sec2", "_x"]
+# dend_1 / dend_01 and sec2 / sec02 have the same natural-sort key (zero padding), sec2 < sec10 naturally but not
+# lexicographically, Sec2 / sec2 differ in case only: all are DIFFERENT groups (seeded change C15-4)
+USER_GROUPS = ["g0", "g1", "g2", "dend_0", "dend_1", "dend_01", "axon_0", "soma_0", "sec10", "sec2", "sec02", "Sec2", "_x"]
 KIND_LIST = {"SpikeThresh": "spike_threshes", "InitMembPotential": "init_memb_potentials",
              "SpecificCapacitance": "specific_capacitances", "Resistivity": "resistivities"}
 KIND_ORDER = ["SpikeThresh", "InitMembPotential", "SpecificCapacitance", "Resistivity"]
@@ -62,6 +78,12 @@ BAD_VALUES = {"SpikeThresh": ["40 furlongs", "40", "4.mV", "40mVV", "1e mV", "--
 UNITS = {"SpikeThresh": "V|mV", "InitMembPotential": "V|mV", "SpecificCapacitance": "F_per_m2|uF_per_cm2",
          "Resistivity": "ohm_cm|kohm_cm|ohm_m"}
 NMLID = re.compile(r"[a-zA-Z_][a-zA-Z0-9_]*\Z")
+
+
+def chan_ok(c):
+    q = r"-?([0-9]*(\.[0-9]+)?)([eE]-?[0-9]+)?[\s]*(%s)\Z"
+    return bool(NMLID.match(c["id"]) and NMLID.match(c["ion_channel"]) and NMLID.match(c["group"]) and NMLID.match(c["ion"])
+                and re.match(q % "S_per_m2|mS_per_cm2|S_per_cm2", c["cond_density"]) and re.match(q % "V|mV", c["erev"]))
 
 
 def quantity_ok(kind, v):
@@ -80,8 +102,13 @@ def gen_case(rng, malformed=False, maxops=40):
     ids = []            # predicted ids of the segments present
     next_explicit = [rng.choice([0, 1, 3, 10])]
     explicit_low = rng.random() < 0.25
-    junk = rng.choice([None, ""])        # one kind of missing group id per history (the model does not tell them apart)
+    caught = malformed and rng.random() < 0.5   # the caller catches every exception and goes on (second pass)
+    lexical = rng.random() < 0.08              # some explicit ids are passed as "5" / 5.5 / 5.0 (docstring: `:type seg_id: str`)
+    negative = rng.random() < 0.04             # some explicit ids are negative
     ops = []
+
+    def junk():
+        return rng.choice([None, ""])          # the two falsy group ids are different list entries
 
     def pick_group(t):
         r = rng.random()
@@ -131,12 +158,26 @@ def gen_case(rng, malformed=False, maxops=40):
             parent = rng.choice(ids) if ids else None
             if ids and rng.random() < 0.003:
                 parent = None                               # forgotten parent -> Exception
-            op = {"op": "addSegment", "prox": rng.random() < 0.6 or not ids, "seg_id": sid,
+            if negative and sid is not None and rng.random() < 0.4:
+                sid = -rng.choice([1, 2, 3, 7])
+            op = {"op": "addSegment", "prox": "ok" if (rng.random() < 0.6 or not ids) else rng.choice(["absent", "absent", "empty"]),
+                  "dist": "ok", "seg_id": sid, "id_kind": "int",
                   "name": rng.choice([None, None, None, "nm%d" % k, ""]), "parent": parent,
                   "frac4": rng.choice([0, 1, 2, 4, 4, 4]), "group_id": g, "use_convention": True, "seg_type": t,
                   "reorder": ro, "optimise": op_}
+            if lexical and sid is not None and sid >= 0 and rng.random() < 0.6:
+                op["id_kind"] = rng.choice(["str", "half", "float"])
             if bad:
-                what = rng.choice(["notype", "badtype", "frac", "noparent", "noconv", "foreign", "emptygroup", "badgroup"])
+                what = rng.choice(["notype", "badtype", "frac", "noparent", "noconv", "foreign", "emptygroup", "badgroup",
+                                   "proxshort", "distshort", "proxdiam", "distdiam"])
+                if what == "proxshort":
+                    op["prox"] = "short"
+                elif what == "distshort":
+                    op["dist"] = "short"
+                elif what == "proxdiam":
+                    op["prox"] = "badDiam"
+                elif what == "distdiam":
+                    op["dist"] = "badDiam"
                 if what == "notype":
                     op["seg_type"] = rng.choice([None, ""])
                 elif what == "badtype":
@@ -183,12 +224,12 @@ def gen_case(rng, malformed=False, maxops=40):
         elif r < 0.74:
             g = rng.choice(USER_GROUPS + (DEFAULTS if default_named or malformed else []))
             if bad:
-                g = rng.choice([junk, junk, "9x"])
+                g = rng.choice([junk(), junk(), "9x"])
             ops.append({"op": "addSegmentGroup", "group_id": g})
         elif r < 0.77:
             g = rng.choice(USER_GROUPS)
             if bad and rng.random() < 0.3:
-                g = junk
+                g = junk()
             ops.append({"op": "addUnbranchedSegmentGroup", "group_id": g})
         elif r < 0.79:
             names = rng.choice([["all", "soma_group"], ["all", "dendrite_group"], ["axon_group"], ["all"], [],
@@ -207,6 +248,24 @@ def gen_case(rng, malformed=False, maxops=40):
             ops.append({"op": "reorder"})
         elif r < 0.87:
             ops.append({"op": "optimise"})
+        elif r < 0.89:
+            cid = rng.choice(["pas", "na", "kd", "pas", "leak_1"])
+            ch = {"op": "addChannelDensity", "id": cid, "ion_channel": rng.choice([cid, "pas"]),
+                  "cond_density": rng.choice(["0.1 mS_per_cm2", "1 S_per_m2", "3e-2S_per_cm2", "0.1 mS_per_cm2"]),
+                  "erev": rng.choice(["-70 mV", "50mV", "-0.07 V"]), "group": rng.choice(["all", "all", "soma_group", rng.choice(USER_GROUPS)]),
+                  "ion": rng.choice(["non_specific", "na", "k"]), "def_file": rng.choice(["", "", cid + ".channel.nml", "chans.nml"]),
+                  "via": rng.choice(["add_channel_density", "add_channel_density_v"])}
+            if bad or rng.random() < 0.03:
+                what = rng.choice(["cond", "erev", "id", "ion"])
+                if what == "cond":
+                    ch["cond_density"] = rng.choice(["0.1 mS_per_cm", "kilo", "1 S"])
+                elif what == "erev":
+                    ch["erev"] = rng.choice(["-70", "50 mv"])
+                elif what == "id":
+                    ch["id"] = rng.choice(["1pas", "a b"])
+                else:
+                    ch["ion"] = "non specific"
+            ops.append(ch)
         else:
             kind = rng.choice(KIND_ORDER)
             v = rng.choice(GOOD_VALUES[kind])
@@ -217,12 +276,48 @@ def gen_case(rng, malformed=False, maxops=40):
                 grp = "no such"
             ops.append({"op": "addIntra" if kind == "Resistivity" else "addMembrane", "kind": kind, "value": v,
                         "group": grp, "via": rng.choice(["set", "add"])})
-    if not malformed and rng.random() < 0.7:
+    if (not malformed and rng.random() < 0.7) or (malformed and rng.random() < 0.3):
         # give the cell its basic biophysical properties somewhere in the history
         for kind in KIND_ORDER[:3]:
             ops.insert(rng.randint(0, len(ops)), {"op": "addMembrane", "kind": kind, "value": rng.choice(GOOD_VALUES[kind]),
                                                   "group": "all", "via": rng.choice(["set", "add"])})
-    return {"ops": ops}
+    return {"ops": ops, "caught": caught}
+
+
+def stored_id(op):
+    """the id as `Segment` stores it (`int(seg_id)`), the raw argument, and its `str()` where that differs"""
+    sid = op["seg_id"]
+    if sid is None:
+        return None, None, None, False
+    kind = op.get("id_kind", "int")
+    if kind == "str":
+        raw = str(sid)
+    elif kind == "half":
+        raw = sid + 0.5
+    elif kind == "float":
+        raw = float(sid)
+    else:
+        raw = sid
+    text = str(raw) if str(raw) != str(sid) else None
+    lex = not (raw == sid)              # Python equality of the raw argument with the stored int
+    return sid, raw, text, lex
+
+
+def wire_ops(ops):
+    """the ops as the driver reads them"""
+    out = []
+    for op in ops:
+        if op["op"] == "addSegment":
+            o = dict(op)
+            sid, raw, text, lex = stored_id(op)
+            o["id_text"] = text
+            o["lex"] = lex
+            o["prox"] = "absent" if op["prox"] == "empty" else op["prox"]
+            o.pop("id_kind", None)
+            out.append(o)
+        else:
+            out.append(op)
+    return out
 
 
 # ---------------------------------------------------------------- real library
@@ -253,7 +348,7 @@ def quiet():
 
 def exc_name(e):
     n = type(e).__name__
-    return n if n in ("ValueError", "Exception", "IndexError", "RecursionError") else "Other:" + n
+    return n if n in ("ValueError", "Exception", "IndexError", "RecursionError", "UnboundLocalError") else "Other:" + n
 
 
 def frac4_of(f):
@@ -264,7 +359,7 @@ def frac4_of(f):
         return "bad:%r" % (f,)
 
 
-def dump_real(cell):
+def dump_real(cell, doc=None):
     m = cell.morphology
     segs = []
     for s in m.segments:
@@ -277,7 +372,7 @@ def dump_real(cell):
             r = sorted(cell.get_all_segments_in_group(g))
         except BaseException as e:  # noqa
             r = "err:" + exc_name(e)
-        groups.append([g.id if g.id is not None else "", g.neuro_lex_id, r])
+        groups.append([g.id, g.neuro_lex_id, r])
     bp = cell.biophysical_properties
     memb, intra = [], []
     for kind in KIND_ORDER[:3]:
@@ -285,7 +380,9 @@ def dump_real(cell):
             memb.append([kind, x.value, x.segment_groups])
     for x in bp.intracellular_properties.resistivities:
         intra.append(["Resistivity", x.value, x.segment_groups])
-    return {"segs": segs, "groups": groups, "memb": memb, "intra": intra}
+    chans = [[x.id, x.ion_channel, x.cond_density, x.erev, x.segment_groups, x.ion] for x in bp.membrane_properties.channel_densities]
+    return {"segs": segs, "groups": groups, "memb": memb, "intra": intra, "chans": chans,
+            "docIncs": [i.href for i in doc.includes] if doc is not None else []}
 
 
 def canon_model_dump(d):
@@ -312,14 +409,18 @@ def apply_op(cell, op, k, track):
         if op["parent"] is not None:
             parent, foreign = find_seg(cell, op["parent"])
             track["foreign"] |= foreign
-        in_use = op["seg_id"] is not None and any(s.id == op["seg_id"] for s in segs)
-        prox = [float(k), 0.0, 0.0, 2.0] if op["prox"] else None
-        cell.add_segment(prox, [float(k), 1.0, 0.0, 1.0], seg_id=op["seg_id"], name=op["name"], parent=parent,
+        sid, raw, _text, lex = stored_id(op)
+        in_use = sid is not None and any(s.id == sid for s in segs)
+        prox = {"ok": [float(k), 0.0, 0.0, 2.0], "absent": None, "empty": [], "short": [float(k), 0.0, 0.0],
+                "badDiam": [float(k), 0.0, 0.0, 0.0]}[op["prox"]]
+        dist = {"ok": [float(k), 1.0, 0.0, 1.0], "short": [float(k), 1.0], "badDiam": [float(k), 1.0, 0.0, -1.0]}[op.get("dist", "ok")]
+        track["pending_in_use"] = {"op_index": k, "seg_id": sid, "lex": lex} if in_use else None
+        cell.add_segment(prox, dist, seg_id=raw, name=op["name"], parent=parent,
                          fraction_along=op["frac4"] / 4.0, group_id=op["group_id"],
                          use_convention=op["use_convention"], seg_type=op["seg_type"],
                          reorder_segment_groups=op["reorder"], optimise_segment_groups=op["optimise"])
         if in_use:
-            track["in_use_accepted"].append({"op_index": k, "seg_id": op["seg_id"]})
+            track["in_use_accepted"].append({"op_index": k, "seg_id": sid, "lex": lex})
     elif o == "addUnbranched":
         parent = None
         if op["parent"] is not None:
@@ -348,6 +449,7 @@ def apply_op(cell, op, k, track):
             track["dup_cause"] = []
             track["junk_group"] = False
             track["props"] = []
+            track["chans"] = []
             before = []
     elif o == "reorder":
         cell.reorder_segment_groups()
@@ -363,6 +465,15 @@ def apply_op(cell, op, k, track):
         else:
             cell.add_intracellular_property(kind, value=v, segment_groups=g)
         track["props"].append((kind, v, g))
+    elif o == "addChannelDensity":
+        doc = track["doc"]
+        if op.get("via") == "add_channel_density_v":
+            cell.add_channel_density_v("ChannelDensity", doc, op["def_file"], id=op["id"], ion_channel=op["ion_channel"],
+                                       cond_density=op["cond_density"], erev=op["erev"], segment_groups=op["group"], ion=op["ion"])
+        else:
+            cell.add_channel_density(doc, op["id"], op["ion_channel"], op["cond_density"], erev=op["erev"], group_id=op["group"],
+                                     ion=op["ion"], ion_chan_def_file=op["def_file"])
+        track["chans"].append(op)
     else:
         raise RuntimeError("unknown op " + o)
     # bookkeeping for the oracle (only reached when the call returned normally)
@@ -375,7 +486,9 @@ def apply_op(cell, op, k, track):
             track["typed"].append((s, t))
             if sum(1 for x in cell.morphology.segments if x.id == s.id) > 1:
                 sid = op.get("seg_id")
-                track["dup_cause"].append("explicit-zero" if sid == 0 else ("explicit-reuse" if sid is not None else "auto-collision"))
+                lexk = op.get("id_kind", "int") != "int"
+                track["dup_cause"].append("lexical-form" if lexk else "explicit-zero" if sid == 0 else
+                                          ("explicit-reuse" if sid is not None else "auto-collision"))
         g = op["group_id"]
         if g:
             if g in DEFAULTS:
@@ -390,7 +503,10 @@ def run_real(case):
     import neuroml
     import neuroml.writers as W
     track = {"typed": [], "nonconv": False, "foreign": False, "in_use_accepted": [], "group_types": {},
-             "default_named": False, "dup_cause": [], "junk_group": False, "props": []}
+             "default_named": False, "dup_cause": [], "junk_group": False, "props": [], "chans": [], "raised": 0,
+             "doc": neuroml.NeuroMLDocument(id="c15doc")}
+    doc = track["doc"]
+    caught = bool(case.get("caught"))
     steps, final = [], None
     with quiet():
         cell = component_factory("Cell", id="c15")
@@ -399,18 +515,24 @@ def run_real(case):
             try:
                 apply_op(cell, op, k, track)
             except BaseException as e:  # noqa
+                track["raised"] += 1
+                if caught:
+                    # the caller catches the exception and goes on: what did the call leave behind?
+                    steps.append({"err": exc_name(e), "left": dump_real(cell, doc)})
+                    # segments a raising call appended are typed by what the call said (oracle: ids/parents only)
+                    continue
                 steps.append({"err": exc_name(e)})
                 alive = False
                 break
-            steps.append({"ok": dump_real(cell)})
+            steps.append({"ok": dump_real(cell, doc)})
         if alive:
             final = {}
             try:
                 cell.reorder_segment_groups()
                 cell.optimise_segment_groups()
-                final["finish"] = {"ok": dump_real(cell)}
+                final["finish"] = {"ok": dump_real(cell, doc)}
             except BaseException as e:  # noqa
-                final["finish"] = {"err": exc_name(e)}
+                final["finish"] = {"err": exc_name(e), "left": dump_real(cell, doc)}
             try:
                 cell.validate(recursive=True)
                 final["validate"] = True
@@ -422,14 +544,15 @@ def run_real(case):
             d = tempfile.mkdtemp(prefix="verif_c15_")
             try:
                 from lxml import etree
-                doc = neuroml.NeuroMLDocument(id="c15doc")
-                doc.cells.append(cell)
+                wdoc = neuroml.NeuroMLDocument(id="c15doc")
+                wdoc.cells.append(cell)
                 p = os.path.join(d, "c15.cell.nml")
-                W.NeuroMLWriter.write(doc, p)
+                W.NeuroMLWriter.write(wdoc, p)
                 ok = xsd().validate(etree.parse(p))
                 final["xsd"] = bool(ok)
                 if not ok:
                     final["xsd_msg"] = str(xsd().error_log)[:300]
+                    final["xsd_msgs"] = [e.message for e in xsd().error_log]
             except BaseException as e:  # noqa
                 final["xsd"] = "exc:" + exc_name(e) + ":" + str(e)[:100]
             finally:
@@ -453,6 +576,31 @@ def probe_opt_fixed():
         return [x.segments for x in c.get_segment_group("g").members] == [3]
 
 
+def probe_id_fixed():
+    """does add_segment compare the id as it is stored (proposed repair fixes/C15-segment-id-as-stored.patch)?"""
+    from neuroml.utils import component_factory
+    with quiet():
+        c = component_factory("Cell", id="probe")
+        s0 = c.add_segment([0, 0, 0, 1], [1, 0, 0, 1], seg_id=5, seg_type="soma")
+        try:
+            c.add_segment(None, [2, 0, 0, 1], seg_id="5", parent=s0, seg_type="soma")
+        except ValueError:
+            return True
+        return False
+
+
+def probe_names_fixed():
+    """does add_segment refuse a group_id that names a default group of another type (fixes/C15-default-group-name.patch)?"""
+    from neuroml.utils import component_factory
+    with quiet():
+        c = component_factory("Cell", id="probe")
+        try:
+            c.add_segment([0, 0, 0, 1], [1, 0, 0, 1], group_id="dendrite_group", seg_type="soma", optimise_segment_groups=False)
+        except ValueError:
+            return len(c.morphology.segments) == 0
+        return False
+
+
 # ---------------------------------------------------------------- oracle: the property's clauses on the real cell
 def suffix(track):
     if track["default_named"]:
@@ -462,20 +610,61 @@ def suffix(track):
     return "other"
 
 
-def oracle(ctx, case, steps, final, track):
+SUFFIXED = ("C15:finish-raises:", "C15:all-mismatch:", "C15:default-group-mismatch:", "C15:include-before-definition:")
+
+
+def oracle(ctx, case, steps, final, track, model=None, agrees=True):
+    """the property's clauses on the real cell, classified.  A failure is filed under the key of an OPEN finding
+    (suffix default-named-user-group / group-reused-across-types) only if the MODEL — which is the code as it is,
+    bug for bug — predicts the failure of that very clause on this very history (`clauseFails` of the driver) AND the
+    real cell agreed with the model at every step of this history (`agrees`); a clause the model says holds, or any
+    failure in a history where the real cell deviates from the model, is filed as `other`, whatever else the history
+    contains (a real regression must not be suppressed as KNOWN-FINDING)."""
+    fails = clauses(ctx, case, steps, final, track)
+    suf = suffix(track)
+    if suf == "other" or not any(k.startswith(SUFFIXED) for k, _ in fails):
+        return fails
+    predicted = set((model or {}).get("clauseFails") or [])
+    out = []
+    for k, what in fails:
+        if k.startswith(SUFFIXED):
+            prefix = k.rsplit(":", 1)[0] + ":"
+            if prefix not in predicted or not agrees:
+                ctx.count("oracle:known-pattern-present-but-not-the-cause")
+                out.append((prefix + "other", what + "  [the history contains the known pattern '%s', but the model of the unchanged code does not predict this failure]" % suf))
+                continue
+        out.append((k, what))
+    return out
+
+
+def clauses(ctx, case, steps, final, track):
     fails = []
     # explicit id already in use must be refused with ValueError
     for x in track["in_use_accepted"]:
-        fails.append(("C15:explicit-id-in-use-not-refused", "add_segment(seg_id=%d) returned normally although a segment with that id exists" % x["seg_id"]))
+        fails.append(("C15:explicit-id-in-use-not-refused" + (":lexical-form" if x.get("lex") else ""),
+                      "add_segment(seg_id=%s) returned normally although a segment with id %d exists" % ("<str/float form of %d>" % x["seg_id"] if x.get("lex") else x["seg_id"], x["seg_id"])))
         break
     if final is None:
+        return fails
+    if case.get("caught") and track["raised"]:
+        # outside the statement ("calls that each returned normally"): only the two clauses the model proves to
+        # survive caught exceptions (c15_caught_ids_unique_parents_exist) are evaluated
+        ids = [s.id for s in final["cell"].morphology.segments]
+        if len(set(ids)) != len(ids) and not any(c == "lexical-form" for c in track["dup_cause"]):
+            fails.append(("C15:caught:duplicate-id", "after caught exceptions: segment ids are not unique: %s" % ids[:12]))
+        if not track["foreign"]:
+            for s in final["cell"].morphology.segments:
+                if s.parent is not None and s.parent.segments not in ids:
+                    fails.append(("C15:caught:dangling-parent", "after caught exceptions: segment %s has parent %s which does not exist" % (s.id, s.parent.segments)))
+                    break
+        ctx.count("oracle:caught-history-ids-parents-only")
         return fails
     cell = final["cell"]
     segs = cell.morphology.segments
     ids = [s.id for s in segs]
     if len(set(ids)) != len(ids):
-        cause = track["dup_cause"][0] if track["dup_cause"] else "unknown"
-        fails.append(("C15:duplicate-id:" + cause, "segment ids are not unique: %s" % ids[:12]))
+        for cause in (sorted(set(track["dup_cause"])) or ["unknown"]):
+            fails.append(("C15:duplicate-id:" + cause, "segment ids are not unique: %s" % ids[:12]))
     if not track["foreign"]:
         for s in segs:
             if s.parent is not None and s.parent.segments not in ids:
@@ -519,12 +708,17 @@ def oracle(ctx, case, steps, final, track):
     # "given its basic biophysical properties" is read off the calls that returned normally, not off the cell
     given = all(any(k == kind for (k, _, _) in track["props"]) for kind in KIND_ORDER[:3])
     given = given and all(quantity_ok(k, v) and NMLID.match(g or "") for (k, v, g) in track["props"])
+    given = given and all(chan_ok(c) for c in track["chans"])
     ids_ok = all(isinstance(g, str) and NMLID.match(g) for g in gids)
     if given and ids_ok and len(segs) >= 1:
+        # the negative-id finding explains an XSD failure only if EVERY schema error is about a negative NonNegativeInteger
+        msgs = final.get("xsd_msgs") or []
+        neg = bool(msgs) and any(i < 0 for i in ids) and all(("NonNegativeInteger" in m and ": '-" in m) for m in msgs)
         if final["validate"] is not True:
             fails.append(("C15:invalid-cell:validate", "validate(recursive=True) fails: %s" % final.get("validate_msg", final["validate"])))
         if final["xsd"] is not True:
-            fails.append(("C15:invalid-cell:xsd", "written cell is not schema-valid: %s" % final.get("xsd_msg", final["xsd"])))
+            fails.append(("C15:invalid-cell:xsd" + (":negative-segment-id" if neg else ""),
+                          "written cell is not schema-valid: %s" % final.get("xsd_msg", final["xsd"])))
     return fails
 
 
@@ -543,8 +737,20 @@ def nontrivial(case, steps, final):
     return user_included and special
 
 
-def run_cases(ctx, cases, opt_fixed, old=False):
-    lines = [json.dumps({"optFixed": opt_fixed, "old": old, "ops": c["ops"]}) for c in cases]
+def canon_step(b):
+    if b is None:
+        return None
+    b = dict(b)
+    for k in ("ok", "left"):
+        if k in b:
+            b[k] = canon_model_dump(b[k])
+    return b
+
+
+def run_cases(ctx, cases, variant, old=False):
+    opt_fixed = variant["optFixed"]
+    lines = [json.dumps({"optFixed": opt_fixed, "idFixed": variant["idFixed"], "namesFixed": variant["namesFixed"], "old": old,
+                         "caught": bool(c.get("caught")), "ops": wire_ops(c["ops"])}) for c in cases]
     rc, out = fw.run_driver("C15", lines)
     if rc != 0 or len(out) != len(lines):
         ctx.disagree("driver", "driver failed rc=%s lines=%d/%d" % (rc, len(out), len(lines)), "\n".join(out[-3:])[:500], None)
@@ -556,59 +762,76 @@ def run_cases(ctx, cases, opt_fixed, old=False):
         ctx.seen(case["ops"], nontrivial=nontrivial(case, steps, final))
         ctx.count("ops:%d-%d" % ((len(case["ops"]) - 1) // 10 * 10 + 1, (len(case["ops"]) - 1) // 10 * 10 + 10))
         ctx.count("ended:" + ("finished" if final is not None else steps[-1]["err"]))
+        if case.get("caught"):
+            ctx.count("caught-history:%s" % ("no-raise" if not track["raised"] else "1-2 raises" if track["raised"] < 3 else "3+ raises"))
+            for st_ in steps:
+                if "err" in st_:
+                    ctx.count("caught:" + st_["err"])
         for op in case["ops"][:len(steps)]:
             ctx.count("op:" + op["op"])
+            if op["op"] == "addSegment":
+                if op.get("id_kind", "int") != "int":
+                    ctx.count("seg-id:lexical:" + op["id_kind"])
+                elif op["seg_id"] is not None and op["seg_id"] < 0:
+                    ctx.count("seg-id:negative")
+                if op["prox"] not in ("ok", "absent") or op.get("dist", "ok") != "ok":
+                    ctx.count("points:malformed")
+            if op["op"] in ("addSegmentGroup", "addUnbranchedSegmentGroup", "addUnbranched") and not op["group_id"]:
+                ctx.count("group-id:" + repr(op["group_id"]))
         if final is not None:
             ctx.count("final-segments:%s" % ("0" if not final["cell"].morphology.segments else
                                             "1-2" if len(final["cell"].morphology.segments) < 3 else
                                             "3-9" if len(final["cell"].morphology.segments) < 10 else "10+"))
             ctx.count("final-verdict:validate=%s,xsd=%s" % (final["validate"], final["xsd"]))
         # --- correspondence, step by step
+        n_dis = len(ctx.corr_disagreements)
         if m is not None:
             msteps = m.get("steps", [])
             nsteps = max(len(steps), len(msteps))
             for k in range(nsteps):
                 ctx.corr_evals += 1
                 a = steps[k] if k < len(steps) else None
-                b = msteps[k] if k < len(msteps) else None
-                if b is not None and "ok" in b:
-                    b = {"ok": canon_model_dump(b["ok"])}
+                b = canon_step(msteps[k] if k < len(msteps) else None)
                 if a != b:
                     ctx.disagree("builder-step", {"ops": case["ops"][:k + 1], "step": k}, a, b)
                     break
             else:
                 if final is not None:
                     ctx.corr_evals += 1
-                    mf = m.get("finish")
-                    if mf is not None and "ok" in mf:
-                        mf = {"ok": canon_model_dump(mf["ok"])}
+                    mf = canon_step(m.get("finish"))
                     if mf != final["finish"]:
-                        ctx.disagree("builder-finish", {"ops": case["ops"]}, final["finish"], mf)
+                        ctx.disagree("builder-finish", {"ops": case["ops"], "caught": case.get("caught")}, final["finish"], mf)
                     else:
+                        # the verdicts of the real validate(recursive=True) and of libxml2 vs the binding-level model of
+                        # validate (C02/C03's validateAll over today's table) run on the model's cell (cellObj)
                         ctx.corr_evals += 1
                         verdict = [final["validate"], final["xsd"]]
-                        if any(g.id is None for g in final["cell"].morphology.segment_groups):
-                            # add_segment_group(None): validate() does not notice the missing required id, the
-                            # schema does (validate-vs-schema agreement is property C02's subject, not C15's)
-                            ctx.count("validate-verdict-not-compared:group-id-None")
-                            verdict[0] = m.get("shapeOK")
-                        if verdict != [m.get("shapeOK"), m.get("shapeOK")]:
-                            ctx.disagree("builder-verdict", {"ops": case["ops"]},
+                        if verdict != [m.get("validate"), m.get("xsd")]:
+                            ctx.disagree("builder-verdict", {"ops": case["ops"], "caught": case.get("caught")},
                                          {"validate": final["validate"], "xsd": final["xsd"],
-                                          "msg": final.get("validate_msg") or final.get("xsd_msg")}, {"shapeOK": m.get("shapeOK")})
+                                          "msg": final.get("validate_msg") or final.get("xsd_msg")},
+                                         {"validate": m.get("validate"), "xsd": m.get("xsd")})
+                        # the hand characterisation shapeOK (+ non-negative ids) against the schema's verdict
+                        ctx.corr_evals += 1
+                        if (m.get("shapeOK") and m.get("idsNonNeg")) != final["xsd"]:
+                            ctx.disagree("builder-shape", {"ops": case["ops"], "caught": case.get("caught")},
+                                         {"xsd": final["xsd"], "msg": final.get("xsd_msg")},
+                                         {"shapeOK": m.get("shapeOK"), "idsNonNeg": m.get("idsNonNeg")})
                 elif "finish" in m:
                     ctx.disagree("builder-finish", {"ops": case["ops"]}, None, m.get("finish"))
         # --- oracle on the real cell
-        for key, what in oracle(ctx, case, steps, final, track):
-            ctx.fail(key, what, {"ops": case["ops"]})
+        for key, what in oracle(ctx, case, steps, final, track, m, agrees=(m is not None and len(ctx.corr_disagreements) == n_dis)):
+            ctx.fail(key, what, {"ops": case["ops"], "caught": bool(case.get("caught"))})
         ctx.sample({"ops": [(o["op"], {k: v for k, v in o.items() if k != "op"}) for o in case["ops"][:4]],
                     "n_ops": len(case["ops"]), "ended": "finished" if final is not None else steps[-1]["err"]})
 
 
 def _seg(**kw):
-    d = {"op": "addSegment", "prox": True, "seg_id": None, "name": None, "parent": None, "frac4": 4, "group_id": None,
-         "use_convention": True, "seg_type": "soma", "reorder": True, "optimise": True}
+    d = {"op": "addSegment", "prox": True, "dist": "ok", "seg_id": None, "id_kind": "int", "name": None, "parent": None, "frac4": 4,
+         "group_id": None, "use_convention": True, "seg_type": "soma", "reorder": True, "optimise": True}
     d.update(kw)
+    if isinstance(d["prox"], bool):
+        d["prox"] = "ok" if d["prox"] else "absent"
     return d
 
 
@@ -650,25 +873,94 @@ CORPUS = [
     {"ops": [_seg(), {"op": "addSegmentGroup", "group_id": ""}, {"op": "addSegmentGroup", "group_id": ""},
              {"op": "addUnbranchedSegmentGroup", "group_id": ""}, {"op": "addUnbranchedSegmentGroup", "group_id": ""},
              _seg(parent=0, group_id="g0", optimise=False), {"op": "optimise"}]},
+    # KNOWN FINDING (second pass): an id in use passed in another lexical form ("5": the docstring's declared type is str) is
+    # not refused: ids [5, 5]
+    {"ops": BASIC + [_seg(seg_id=5), _seg(seg_id=5, id_kind="str", parent=5, seg_type="dendrite", prox=False)]},
+    {"ops": [_seg(seg_id=2), _seg(seg_id=2, id_kind="half", parent=2, seg_type="dendrite", group_id="d0")]},
+    # exact float form: refused as it should (2 == 2.0); the name shows the raw argument ("Seg4.0")
+    {"ops": [_seg(seg_id=2), _seg(seg_id=4, id_kind="float", parent=2), _seg(seg_id=2, id_kind="float", parent=2)]},
+    # KNOWN FINDING (second pass): a negative id is accepted; validate passes, the written cell is not schema-valid
+    {"ops": BASIC + [_seg(seg_id=-1)]},
+    # a raising call leaves something behind: seg_type missing after the user group was created and filled; the caller
+    # catches and goes on (caught=True): the next automatic id goes to a soma segment, g1 reaches dendrite_group
+    {"ops": [_seg(), _seg(parent=0, group_id="g1", seg_type=None), _seg(parent=0), _seg(parent=0, group_id="g1", seg_type="dendrite")],
+     "caught": True},
+    # add_unbranched_segments without a group id raises at its last line, after adding the segments (caught)
+    {"ops": [_seg(), {"op": "addUnbranched", "npoints": 3, "parent": 0, "frac4": 4, "group_id": None, "use_convention": True,
+                      "seg_type": "dendrite", "reorder": True, "optimise": True}, _seg(parent=2, seg_type="axon")], "caught": True},
+    # group_id="all": RecursionError inside add_segment after the segment was appended and some groups optimised (caught)
+    {"ops": [_seg(group_id="all"), _seg(parent=0, seg_type="dendrite", group_id="d0"), {"op": "optimise"}], "caught": True},
+    # malformed points: 3-element prox (UnboundLocalError after the id check), diameter 0 (ValueError first)
+    {"ops": [_seg(), _seg(parent=0, prox="short", seg_id=0), _seg(parent=0, prox="short"), _seg(parent=0, dist="badDiam", seg_id=0),
+             _seg(parent=0, prox="empty")], "caught": True},
+    # group ids None and "" are different list entries; add_unbranched_segment_group likewise
+    {"ops": [_seg(), {"op": "addSegmentGroup", "group_id": None}, {"op": "addSegmentGroup", "group_id": ""},
+             {"op": "addSegmentGroup", "group_id": None}, {"op": "addUnbranchedSegmentGroup", "group_id": None},
+             {"op": "addUnbranchedSegmentGroup", "group_id": ""}, {"op": "optimise"}], "caught": True},
+    # channel densities: equal entry not re-added, definition file included once, both entry points; valid cell
+    {"ops": BASIC + [_seg(),
+                     {"op": "addChannelDensity", "id": "pas", "ion_channel": "pas", "cond_density": "0.1 mS_per_cm2", "erev": "-70 mV",
+                      "group": "all", "ion": "non_specific", "def_file": "pas.channel.nml", "via": "add_channel_density"},
+                     {"op": "addChannelDensity", "id": "pas", "ion_channel": "pas", "cond_density": "0.1 mS_per_cm2", "erev": "-70 mV",
+                      "group": "all", "ion": "non_specific", "def_file": "pas.channel.nml", "via": "add_channel_density_v"},
+                     {"op": "addChannelDensity", "id": "na", "ion_channel": "na", "cond_density": "1 S_per_m2", "erev": "50mV",
+                      "group": "soma_group", "ion": "na", "def_file": "", "via": "add_channel_density_v"}]},
+    # a bad conductance density is accepted at build time (validate=False), refused by validate and the schema
+    {"ops": BASIC + [_seg(), {"op": "addChannelDensity", "id": "pas", "ion_channel": "pas", "cond_density": "kilo", "erev": "-70 mV",
+                              "group": "all", "ion": "non_specific", "def_file": "", "via": "add_channel_density"}]},
+    # two DIFFERENT groups whose ids have the same natural-sort key (zero padding), both dendrites: both stay included
+    {"ops": BASIC + [_seg(), _seg(parent=0, seg_type="dendrite", group_id="dend_1"), _seg(parent=0, seg_type="dendrite", group_id="dend_01"),
+                     _seg(parent=1, seg_type="dendrite", group_id="dend_1", prox=False)]},
+    {"ops": [_seg(group_id="sec2"), _seg(parent=0, group_id="sec10"), _seg(parent=0, group_id="sec02", optimise=False),
+             _seg(parent=0, group_id="Sec2", reorder=False), {"op": "optimise"}]},
     # bad quantity accepted at build time (validate=False), refused by validate and the schema
     {"ops": [BASIC[0], BASIC[1], {"op": "addMembrane", "kind": "SpecificCapacitance", "value": "kilo", "group": "all", "via": "set"}, _seg()]},
 ]
 
 
+def regenerate(ctx):
+    """translator step: Gen/Builder.lean from the CURRENT helper_methods.py and nml.py of fw.REPO"""
+    sys.path.insert(0, os.path.join(fw.VERIF, "translators"))
+    import importlib
+    import py2lean_builder
+    importlib.reload(py2lean_builder)
+    return py2lean_builder.regenerate(fw.REPO, os.path.join(fw.VERIF, "lean", "NmlVerif", "Gen", "Builder.lean"))
+
+
+def variant_of_tree():
+    return {"optFixed": probe_opt_fixed(), "idFixed": probe_id_fixed(), "namesFixed": probe_names_fixed()}
+
+
+def norm_case(c):
+    """cases stored by earlier versions of the check (prox as bool, no id_kind)"""
+    ops = []
+    for op in c["ops"]:
+        op = dict(op)
+        if op["op"] == "addSegment":
+            if isinstance(op.get("prox"), bool):
+                op["prox"] = "ok" if op["prox"] else "absent"
+            op.setdefault("dist", "ok")
+            op.setdefault("id_kind", "int")
+        ops.append(op)
+    return {"ops": ops, "caught": bool(c.get("caught"))}
+
+
 def run(ctx):
-    opt_fixed = probe_opt_fixed()
-    ctx.extra["optimise_segment_group_variant"] = "repaired (C14)" if opt_fixed else "shipped"
+    variant = variant_of_tree()
+    ctx.extra["optimise_segment_group_variant"] = "repaired (C14)" if variant["optFixed"] else "shipped"
+    ctx.extra["add_segment_id_check"] = "on the stored id (proposed repair)" if variant["idFixed"] else "on the raw argument (shipped)"
+    ctx.extra["add_segment_default_group_names"] = "refused (proposed repair)" if variant["namesFixed"] else "accepted (shipped)"
     n = ctx.n(1200, 10000) * ctx.search_mult
-    cases = [json.loads(json.dumps(c)) for c in CORPUS]
+    cases = [norm_case(json.loads(json.dumps(c))) for c in CORPUS]
     for i in range(n):
         cases.append(gen_case(ctx.rng, malformed=(i % 5 == 4)))
-    run_cases(ctx, cases, opt_fixed)
+    run_cases(ctx, cases, variant)
 
 
 def replay(ctx, payload):
     case = payload["case"]
     if "ops" not in case and "case" in case:
         case = case["case"]
-    run_cases(ctx, [{"ops": case["ops"]}], probe_opt_fixed())
+    run_cases(ctx, [norm_case({"ops": case["ops"], "caught": case.get("caught", payload["case"].get("caught"))})], variant_of_tree())
     return {"fails": bool(ctx.failures or ctx.corr_disagreements), "failures": ctx.failures,
             "disagreements": ctx.corr_disagreements}
